@@ -97,8 +97,14 @@ func (g *ExecutionGraph) To(name string) []string {
 }
 
 func (g *ExecutionGraph) cycleDfs(t string, visited map[string]bool) error {
-	if visited[t] {
+	// visited[t] is true while t is on the current path and false once
+	// everything reachable from t has been explored without finding a cycle
+	onPath, explored := visited[t]
+	if onPath {
 		return ErrCycleDetected
+	}
+	if explored {
+		return nil
 	}
 	visited[t] = true
 
@@ -108,6 +114,9 @@ func (g *ExecutionGraph) cycleDfs(t string, visited map[string]bool) error {
 			return err
 		}
 	}
+	// t is no longer on the current path: reaching it again along another
+	// path is not a cycle
+	visited[t] = false
 
 	return nil
 }
